@@ -18,7 +18,7 @@ CANON = [b'foo', b'foo/bar', b'./foo', b'foo/.', b'foo/./bar', b'./', b'./.', b'
 DEPFILES = [b'build/browse.o: src/browse.cc src/browse.h build/browse_py.h\n', b'build/browse.o: src/browse.cc   \n',
             b'build/browse.o: src/browse.cc\\\n  build/browse_py.h', b'build/browse.o: src/browse.cc',
             b'build/browse.o   : src/browse.cc', b'odd/path.o: C:/odd\\path.c',
-            b'\nout/a.o: src/a.c \\\n  src/b.c\n\nout/b.o :\n', b'foo bar', b'a: \\x', b'out: h1\nout:\n', b'\\\n\n']
+            b'\nout/a.o: src/a.c \\\n  src/b.c\n\nout/b.o :\n', b'foo bar', b'a: \\x', b'out: h1\nout:\n', b'\\\n\n', b'a: x\nb: y\na: z\n', b': \na: a\n: :']
 MANIFESTS = [b'var = 3\ndefault a b$var c\n', b'x = $y.z\n', b'rule x.y\n  command = x\n', b'build$\n foo$\n : $\n  touch $\n\n',
              b'rule cc\n  command = gcc $in -o $out\n  description = CC $out\nbuild a.o | b: cc a.c | h || o |@ v\n  pool = console\ndefault a.o\npool p\n  depth = 3\nbuilddir = out\n',
              b'build a: phony b\nbuild b: phony c\nbuild c: phony a\n', b'rule r\n  command = c\nbuild dup dup: r\n',
